@@ -31,8 +31,11 @@ class BayesianEstimator(ParameterEstimator):
                     f"Bayesian Parameter Estimation works only on models with all observed variables. Found latent variables: {model.latents}"
                 )
 
-            if isinstance(model, DAG):
-                model = BayesianNetwork(model.edges())
+            if not isinstance(model, BayesianNetwork):
+                # A plain DAG: build a network on the same nodes (isolated ones too).
+                bn = BayesianNetwork(model.edges())
+                bn.add_nodes_from(model.nodes())
+                model = bn
 
         super(BayesianEstimator, self).__init__(model, data, **kwargs)
 
